@@ -71,6 +71,11 @@ func (j *cacheJanitor[MetadataT]) start(ctx context.Context) {
 				metrics.Global.Cache.CleanupRuns.Increment()
 				slog.Info("Cache cleanup cycle complete")
 			case newInterval := <-j.intervalChanged:
+				if newInterval <= 0 {
+					// Ticker.Reset panics on a non-positive duration, which would take the whole process down.
+					slog.Warn("Ignoring non-positive cache cleanup interval", "new_interval", newInterval)
+					continue
+				}
 				j.interval = newInterval
 				ticker.Reset(j.interval)
 				slog.Info("Cache cleanup ticker reset", "new_interval", j.interval)
